@@ -295,6 +295,12 @@ class FakeWalFile:
                         continue
                     if a.get(key) != c.get(key):
                         ok, why = False, f'field {key}'
+                # the payload once more, validated back with the event's own class and compared as Python values (a declared
+                # bytes / datetime / set field has to come back as the same value, not merely as the same JSON text)
+                back2 = type(live).model_validate_json(line)
+                for key in type(live).model_fields:
+                    if not key.startswith('event_') and getattr(back2, key) != getattr(live, key):
+                        ok, why = False, f'payload field {key} comes back as another value'
             if not line.endswith('\n') or '\n' in line[:-1]:
                 ok, why = False, 'not one line'
         except Exception as ex:  # noqa: BLE001
@@ -548,6 +554,22 @@ def mk_types(sc):
         ns = {'__annotations__': {'event_timeout': float | None},
               'event_timeout': (None if to == 'none' else (to if to else 300.0)), '__module__': __name__}
         for fk, fv in (spec.get('payload') or {}).items():
+            if isinstance(fv, dict) and '__type__' in fv:
+                # a declared, typed payload field
+                ty, v = fv['__type__'], fv['v']
+                if ty == 'bytes':
+                    ns['__annotations__'][fk] = bytes
+                    ns[fk] = v.encode()
+                elif ty == 'datetime':
+                    ns['__annotations__'][fk] = dt.datetime
+                    ns[fk] = dt.datetime.fromisoformat(v)
+                elif ty == 'set_int':
+                    ns['__annotations__'][fk] = set[int]
+                    ns[fk] = set(v)
+                else:
+                    ns['__annotations__'][fk] = float | None
+                    ns[fk] = v
+                continue
             ns['__annotations__'][fk] = object
             ns[fk] = fv
         types[name] = type(name, (BaseEvent,), ns)
@@ -791,10 +813,12 @@ async def ext_task(x, prog, slots):
                 try:
                     # the filter is handed over as include, as the deprecated predicate, as a (negated) exclude, or split
                     # between them; the type as a name or as the class
-                    mode = k % 4
+                    mode = k % 5
                     kw = ({'include': include} if mode == 0 else {'predicate': include} if mode == 1 else
                           {'exclude': (lambda ev: not include(ev))} if mode == 2 else
-                          {'include': (lambda ev: True), 'predicate': include, 'exclude': (lambda ev: False)})
+                          {'include': (lambda ev: True), 'predicate': include, 'exclude': (lambda ev: False)} if mode == 3 else
+                          # (both given: an event has to satisfy include AND the deprecated predicate)
+                          {'include': include, 'predicate': (lambda ev: True)})
                     got = await b.expect(RT.types[key] if (k % 2 == 1 and key != '*') else key, timeout=to, **kw)
                     # recorded here: atomic with the removal of the temporary handler in expect()'s finally
                     RT.expect_cur.pop(x, None)
